@@ -46,8 +46,10 @@ CASES = [
                  "(2*b1*n_z1**2 + b2*n_z2**2 + b3*n_z3**2)/2, 7*(b1*n_z1**2 + b2*n_z2**2 + b3*n_z3**2)/2)"),
     dict(name="ionic_strength_dict", targets=["chempy.electrolytes.ionic_strength"], setup=EL,
          vars={"b1": POS, "b2": POS, "b3": POS},
-         plain="(ionic_strength({'Mg+2': b1, 'PO4-3': b2, 'Na+': b3}, warn=False), ionic_strength({'Fe+3': b1, 'SO4-2': b2, 'Cl-': b3}, warn=False))",
-         formula="((4*b1 + 9*b2 + b3)/2, (9*b1 + 4*b2 + b3)/2)"),
+         plain="(ionic_strength({'Mg+2': b1, 'PO4-3': b2, 'Na+': b3}, warn=False), ionic_strength({'Fe+3': b1, 'SO4-2': b2, 'Cl-': b3}, warn=False), "
+               "ionic_strength({'Na+': b1, 'SO4-2': b2}, substances='SO4-2 Na+', warn=False), "
+               "ionic_strength({'SO4-2': b2, 'Na+': b1}, substances='SO4-2 Na+', warn=False))",
+         formula="((4*b1 + 9*b2 + b3)/2, (9*b1 + 4*b2 + b3)/2, (b1 + 4*b2)/2, (b1 + 4*b2)/2)"),
     dict(name="ionic_strength_arrays", targets=["chempy.electrolytes.ionic_strength"], setup=EL,
          vars={"b1": POS, "b2": POS, "n_z1": ZR, "n_z2": ZR},
          plain="ionic_strength([np.array([b1], dtype=object), np.array([b2], dtype=object)], [n_z1, n_z2])[0]",
